@@ -10,7 +10,8 @@ STY = {"s": "'%s'", "d": '"%s"'}
 SPECIAL = set("|&;<>()$`\\\"'*?[]{},~#!=%^ \t")
 CTX = {"a": "", "p": " | q", "s": " ; q", "n": " && q", "o": " || q"}
 RULE = ("argument texts over the 29-symbol alphabet of the property (25 metacharacters, blank, tab, a letter, a multi-byte letter): "
-        "quick = every text of length <= 2 x 3 styles x {first, middle, last} x 5 contexts and every text of length 3 as last argument; "
+        "quick = every text of length <= 2 x 3 styles x {first, middle, last} x 5 contexts (operators written with blanks; as last argument also "
+        "WITHOUT blanks: `prog 'x' a\\>b|q`) and every text of length 3 as last argument; "
         "thorough = length <= 3 everywhere, length 4 as last argument; random lists of 0..6 arguments with empty strings; a sample through "
         "the real binary (`cicada -c`, argv-recording helper). Each case: line_to_cmds + CommandLine::from_line in-process vs the Lean model, "
         "and both vs the expected argv of the Lean spec. non-trivial = distinct (style, argument text) pairs containing at least one metacharacter")
@@ -24,10 +25,13 @@ def render_arg(style, a):
     return "".join(("\\" + c) if c in SPECIAL else c for c in a)
 
 
-def mk(env, p, args, ctx, meta):
-    line = p + "".join(" " + render_arg(s, a) for s, a in args) + CTX[ctx]
+TIGHT = {"a": "", "p": "|q", "s": ";q", "n": "&&q", "o": "||q"}
+
+
+def mk(env, p, args, ctx, meta, tight=False):
+    line = p + "".join(" " + render_arg(s, a) for s, a in args) + (TIGHT if tight else CTX)[ctx]
     af = ",".join(s + ":" + hx(a) for s, a in args) or "[]"
-    return Case("plan1", [env, hx(line), "c01", hx(p), af, ctx], meta)
+    return Case("plan1", [env, hx(line), "c01", hx(p), af, ctx] + (["t"] if tight else []), meta)
 
 
 ENV = gens.env_field(vars={"A": "va", "x": "1"}, exported={"HOME": "/h"}, aliases={"ls": "ls -l"}, status=0)
@@ -47,6 +51,9 @@ def generate(tier, rng):
             for args in positions(style, a):
                 for ctx in CTX:
                     cases.append(mk(ENV, "prog", args, ctx, {"gen": "e", "style": style, "a": a}))
+            # the operator written without blanks, directly after the argument under test
+            for ctx in "psno":
+                cases.append(mk(ENV, "prog", [("s", "x"), (style, a)], ctx, {"gen": "et", "style": style, "a": a}, tight=True))
     klast = 3 if tier == "quick" else 4
     for a in gens.all_strings(ALPHA, klast, klast):
         for style in "sde":
@@ -61,7 +68,7 @@ def generate(tier, rng):
             a = gens.rand_string(r, ALPHA + ["b", "1", "-", ".", "/", "日本"], 0, 6)
             args.append((style, a))
         p = r.choice(["prog", "./argv", "a-b_c.d", "prog", "/bin/x1"])
-        cases.append(mk(ENV, p, args, r.choice("apsno"), {"gen": "g"}))
+        cases.append(mk(ENV, p, args, r.choice("apsno"), {"gen": "g"}, tight=r.chance(1, 3)))
     return cases
 
 
